@@ -1047,6 +1047,28 @@ Proof.
     destruct e; cbn [x_up x_closed sp_prev sp_garb]; auto.
 Qed.
 
+Lemma vleb_add a z : vleb a (vadd a z) = true.
+Proof. unfold vleb. vdes. vsimp. repeat (apply andb_true_intro; split); apply N.leb_le; lia. Qed.
+Lemma vleb_zero b : vleb vzero b = true.
+Proof. unfold vleb. vdes. vsimp. repeat (apply andb_true_intro; split); apply N.leb_le; lia. Qed.
+Lemma vleb_part a b z : vleb b (vadd (vadd a b) z) = true.
+Proof. unfold vleb. vdes. vsimp. repeat (apply andb_true_intro; split); apply N.leb_le; lia. Qed.
+Lemma vleb_cons w a : vleb (vadd w a) (vadd a w) = true.
+Proof. unfold vleb. vdes. vsimp. repeat (apply andb_true_intro; split); apply N.leb_le; lia. Qed.
+
+(* what rests in the autodraining queues of configured peers grows only by a declared straggler *)
+Lemma x_lost_growth x e :
+  vleb (lsum (x_lost (xstep_state x e))) (vadd (lsum (x_lost x)) (declared e)) = true.
+Proof.
+  unfold xstep_state. destruct (s_closed (x_s x)).
+  - destruct e; cbn [x_lost]; apply vleb_add.
+  - destruct e; cbn [x_lost declared]; try apply vleb_add; try apply vleb_zero.
+    + rewrite (lsum_split j (x_lost x)). apply vleb_part.
+    + destruct (s_up (x_s x)); cbn [x_lost]; [apply vleb_add|apply vleb_zero].
+    + destruct (find_peer j (s_peers (x_s x))) as [q|]; [destruct (q_run q)|]; cbn [x_lost]; try apply vleb_add.
+      rewrite lsum_cons. cbn [snd]. apply vleb_cons.
+Qed.
+
 Lemma model_meets_spec_gen c evs : forall x y,
   inv (x_s x) -> dinv (x_s x) -> xinv x -> s_cfg (x_s x) = c -> agree x y ->
   forallb (fun v => match v with [] => true | _ => false end) (outs (sp_step c) y (model_trace x evs)) = true.
@@ -1077,7 +1099,9 @@ Proof.
   { rewrite Au, Ac. destruct (s_up (x_s x1)) eqn:U; [reflexivity|]. cbn [negb andb].
     destruct (s_closed (x_s x1)); [reflexivity|]. cbn [negb andb]. unfold observe; cbn [o_selems].
     destruct Hi1 as (_ & I1 & _). rewrite (resting_stopped _ (Hd1 U) I1). reflexivity. }
-  rewrite H7. reflexivity.
+  rewrite H7.
+  destruct Ha as (_ & _ & Hp & _). pose proof (x_lost_growth x e) as H8. fold x1 in H8.
+  unfold observe at 1 2 3; cbn [o_owner o_lost]. rewrite Hp, H8. reflexivity.
 Qed.
 
 Theorem model_meets_spec : forall c evs, holdsb c (model_trace (xinit c) evs) = true.
